@@ -90,9 +90,12 @@ type c02rxGen struct {
 	groups int
 	names  map[string]bool
 	fold   bool
+	posix  bool // POSIX syntax only: no (?…), no lazy operators, no perl classes / assertions
 }
 
 var c02rxLits = []string{"a", "b", "c", "a", "b", "0", "1", " ", "=", "-", "_", "/", "A", "B", `\.`, `\-`, `\[`, `\\`, ":"}
+var c02rxPosixClasses = []string{`[a-c]`, `[^a]`, `[0-9a-f]`, `.`, `[ab]`, `[^ab=]`, `[a\-c]`, `[a-]`, `[-a]`, `[A-Z]`, `[^A-Z0-9]`, `[b-b]`, `[^\n]`, `[0-9]`, `[a-z_]`}
+var c02rxCounts = []string{"{2}", "{0}", "{1}", "{1,2}", "{0,2}", "{2,}", "{1,}", "{0,}", "{3,5}", "{2,3}", "{0,1}", "{3}", "{1,4}", "{10}", "{0,0}"}
 var c02rxClasses = []string{`[a-c]`, `[^a]`, `[0-9a-f]`, `\d`, `\w`, `\s`, `\S`, `\D`, `\W`, `.`, `[ab]`, `[^ab=]`, `[a\-c]`, `[\d_]`, `[a-]`, `[-a]`, `[A-Z]`, `[^A-Z0-9]`, `[\w/]`, `[b-b]`}
 
 func (g *c02rxGen) atom(depth int) string {
@@ -100,6 +103,9 @@ func (g *c02rxGen) atom(depth int) string {
 	case depth < 3 && g.r.Chance(1, 4):
 		return g.group(depth)
 	case g.r.Chance(1, 3):
+		if g.posix {
+			return Pick(g.r, c02rxPosixClasses)
+		}
 		return Pick(g.r, c02rxClasses)
 	}
 	return Pick(g.r, c02rxLits)
@@ -107,7 +113,11 @@ func (g *c02rxGen) atom(depth int) string {
 
 func (g *c02rxGen) group(depth int) string {
 	open := "("
-	switch g.r.Intn(6) {
+	sel := g.r.Intn(6)
+	if g.posix {
+		sel = 5
+	}
+	switch sel {
 	case 0:
 		open = "(?:"
 	case 1, 2:
@@ -123,9 +133,19 @@ func (g *c02rxGen) group(depth int) string {
 func (g *c02rxGen) rep(depth int) string {
 	a := g.atom(depth)
 	if g.r.Chance(2, 5) {
-		a += Pick(g.r, []string{"*", "+", "?", "*", "+", "?", "*?", "+?", "??"})
+		switch {
+		case g.r.Chance(1, 4):
+			a += Pick(g.r, c02rxCounts)
+			if !g.posix && g.r.Chance(1, 4) {
+				a += "?"
+			}
+		case g.posix:
+			a += Pick(g.r, []string{"*", "+", "?"})
+		default:
+			a += Pick(g.r, []string{"*", "+", "?", "*", "+", "?", "*?", "+?", "??"})
+		}
 		if g.r.Chance(1, 40) {
-			a += Pick(g.r, []string{"*", "+", "?", "{2}"}) // doubled operators / counted repetition: outside
+			a += Pick(g.r, []string{"*", "+", "?", "{2}"}) // doubled operators: outside
 		}
 	}
 	return a
@@ -143,6 +163,9 @@ func (g *c02rxGen) cat(depth int) string {
 	for i := 0; i < n; i++ {
 		if g.r.Chance(1, 25) {
 			sb.WriteString(Pick(g.r, []string{"^", "$"}))
+		}
+		if !g.posix && g.r.Chance(1, 12) {
+			sb.WriteString(Pick(g.r, []string{`\b`, `\b`, `\B`, `\A`, `\z`}))
 		}
 		sb.WriteString(g.rep(depth))
 	}
@@ -165,12 +188,16 @@ func (g *c02rxGen) pattern() string {
 	if g.r.Chance(1, 6) {
 		p = p + "$"
 	}
-	if g.r.Chance(1, 8) {
+	if !g.posix && g.r.Chance(1, 8) {
 		p = "(?i)" + p
 		g.fold = true
 	}
+	if !g.posix && g.r.Chance(1, 12) {
+		p += Pick(g.r, []string{`\b`, `\B`, `\z`})
+	}
 	if g.r.Chance(1, 60) {
-		p += Pick(g.r, []string{`\b`, `é`, `a{1,2}`, `(?s).`, `[[:alpha:]]`, `\pL`, `(a*)*`, `(a|)*`, `(|a)+`, `\z`, `(?m)^a`, `[]a]`, `x{`, `\Qa\E`})
+		p += Pick(g.r, []string{`é`, `a{,2}`, `(?s).`, `[[:alpha:]]`, `\pL`, `(a*)*`, `(a|)*`, `(|a)+`, `(?m)^a`, `[]a]`, `x{`, `\Qa\E`,
+			`a{2}{3}`, `(a{30}){40}`, `a{1001}`, `a{2,1}`, `x{01}`, `(a*){2,}`, `(a{500}){2}`, `((a{10}){10}){10}`, `((a{10}){10}){11}`, `(a{0}){1000}`, `\d`, `a*?`, `(?:a)`})
 	}
 	return p
 }
@@ -212,15 +239,41 @@ func c02RxGen(r *Rand, tier string) []string {
 		{`[^a]+$`, "aab\nc"},
 		{`(?:user=(\w+) )?(GET|POST) (\d+)`, "GET 200"},
 		{`\[(?:(INFO)|(WARN)|(ERROR))\]`, "[WARN]"},
+		{`(\d{1,3})\.(\d{1,3})\.(\d{1,3})\.(\d{1,3})`, "ip=10.0.255.1 ok"},
+		{`(a|ab){2}`, "aabab"},
+		{`(a*){2,3}`, "aaa"},
+		{`(a|b){2,}?c`, "abbc"},
+		{`\b(\w+)\b=(\d{3})\b`, "x status=404 "},
+		{`\Ba\B`, "a bab"},
+		{`(a{2}){2,3}`, "aaaaaaa"},
+		{`(a){0}b`, "ab"},
+		{`(?:(a)|b){3}`, "abb"},
 	}
 	for _, f := range fixed {
 		out = append(out, fmt.Sprintf("rx 0 %s %s", HexS(f.pat), HexS(f.line)))
 	}
+	for _, f := range []struct{ pat, line string }{
+		{`(a|ab)(c|bcd)(d*)`, "abcd"},
+		{`(a*)(a|b)*`, "aab"},
+		{`a|ab|abc`, "xabcd"},
+		{`(a|ab)(bc|c)?`, "abc"},
+		{`^b`, "a\nb"},
+		{`a$`, "a\nb"},
+		{`[^a]+`, "ab\nc"},
+		{`(a+)(a+)`, "aaaa"},
+		{`(a|b)*`, "abab"},
+		{`(ab|a)(bc|c|b)`, "abc"},
+		{`x*`, "aaa"},
+		{`(a{1,2}){2}`, "aaa"},
+	} {
+		out = append(out, fmt.Sprintf("rx 1 %s %s", HexS(f.pat), HexS(f.line)))
+	}
 	for i := 0; i < n; i++ {
 		g := &c02rxGen{r: r, names: map[string]bool{}}
+		g.posix = r.Chance(1, 5)
 		pat := g.pattern()
 		posix := "0"
-		if r.Chance(1, 50) {
+		if g.posix != r.Chance(1, 50) { // rarely: Perl syntax under --posix (mostly compile errors), POSIX syntax under Perl
 			posix = "1"
 		}
 		for k := 0; k < 2; k++ {
@@ -235,7 +288,7 @@ func c02RxGen(r *Rand, tier string) []string {
 					ok = false
 				}
 			}
-			if ok {
+			if ok && posix == "0" {
 				keys := []string{"0", "1", "2", "3", "@", "nope", "9"}
 				for nm := range g.names {
 					keys = append(keys, nm)
@@ -256,7 +309,7 @@ func c02RxStats(cases []string, st map[string]int) {
 		}
 		pat := string(UnHex(f[2]))
 		for _, k := range []struct{ key, sub string }{{"rx.pat.group", "("}, {"rx.pat.named", "(?P<"}, {"rx.pat.alt", "|"}, {"rx.pat.star", "*"},
-			{"rx.pat.plus", "+"}, {"rx.pat.lazy", "*?"}, {"rx.pat.class", "["}, {"rx.pat.fold", "(?i)"}, {"rx.pat.anchor", "^"}} {
+			{"rx.pat.plus", "+"}, {"rx.pat.lazy", "*?"}, {"rx.pat.class", "["}, {"rx.pat.fold", "(?i)"}, {"rx.pat.anchor", "^"}, {"rx.pat.count", "{"}, {"rx.pat.wordb", `\b`}} {
 			if strings.Contains(pat, k.sub) {
 				st[k.key]++
 			}
